@@ -161,6 +161,18 @@ def c20(rep, tier):
     r_lock.run_lock(p, rep)
     r_lock.run_reentrant_refcell(p, rep)
     r_utf8sink.run_unsafe(p, rep)
+    # poisoning: parser::parse runs under the cache lock, so any panic site of the parse census can poison the store
+    g = grammar.load(facts.REPO)
+    sub = type(rep)(rep.prop, rep.tier)
+    r_panic.run(p, sub, g, "parse")
+    r_grammar.run_totality(sub, g)
+    pr, rr = r_panic.reach_sets(p)
+    r_arith.run(p, sub, reach=pr)
+    n_ok = sum(1 for o in sub.obligations if o["ok"])
+    for v in sub.violations:
+        rep.viol("R-LOCK.poison", "panic under the cache lock: " + v["key"].split("|", 1)[1], v["where"],
+                 "LazyStore compiles partials while holding its Mutex; this parser panic site would poison the lock for every later use: " + v["what"], v["detail"])
+    rep.ok("R-LOCK.poison", "parse census under the lock", "-", "%d panic-capable parser sites are discharged (C01's census)" % n_ok)
     rep.analysed["config:all"] = {"bodies": len(p.fns)}
 
 
